@@ -413,7 +413,18 @@ def run(ctx: Ctx) -> None:
     witness = ["2020-01-01T12:00:00.000000 045 RP --- 01:145038 18:000730 --:------ 313F 009 00FC3400C50B0207E6",
                "2026-01-01T12:00:00.000000 045  I --- 01:145038 --:------ 01:145038 30C9 003 0007D0"]
     notes = {}
-    hists = [(witness, "crafted-313F", "crafted", {})] + [gw.derive(rng, syss) for _ in range(n_c)]
+    # a clock-correction exchange as the gateway itself performs it: request, reply, WRITE, announcement -- of the four only the reply and the
+    # announcement belong in a snapshot ("no requests, no writes other than schedule fragments")
+    clock = ["2026-01-01T12:00:00.000000 045  I --- 01:145038 --:------ 01:145038 1F09 003 FF0708",
+             "2026-01-01T12:00:01.000000 045 RQ --- 18:013393 01:145038 --:------ 313F 001 00",
+             "2026-01-01T12:00:01.100000 045 RP --- 01:145038 18:013393 --:------ 313F 009 00FC1E000C010107EA",
+             "2026-01-01T12:00:02.000000 045  W --- 18:013393 01:145038 --:------ 313F 009 006000000C010107EA",
+             "2026-01-01T12:00:02.100000 045  I --- 01:145038 18:013393 --:------ 313F 009 00FC00000C010107EA",
+             "2026-01-01T12:00:03.000000 045  W --- 18:013393 01:145038 --:------ 2309 003 0107D0",
+             "2026-01-01T12:00:03.100000 045  I --- 01:145038 18:013393 --:------ 2309 003 0107D0",
+             "2026-01-01T12:00:04.000000 045  I --- 04:189078 --:------ 01:145038 30C9 003 0007D0"]
+    hists = [(witness, "crafted-313F", "crafted", {}), (clock, "crafted-clock-write", "crafted", {})] + [(clock[:k], "crafted-clock-write", "crafted", {}) for k in (4, 5, 6)]
+    hists += [gw.derive(rng, syss) for _ in range(n_c)]
     for name, base, cfg in syss:            # the recorded systems verbatim, and every 40th prefix
         hists.append((base, "verbatim", name, cfg))
         for k in range(40, len(base), 40 if thorough else 160):
